@@ -1,5 +1,5 @@
 \* exhaustive: core T, every stationary-flag setting, tracking on and off, depth-bounded
-CONSTANTS NL = 5  NA0 = 4  NF = 2  MB = 3  MaxCascade = 3  MaxLevel = 4  ReAdd = TRUE
+CONSTANTS NL = 5  NA0 = 4  NP0 = 1  NF = 2  MB = 3  MaxCascade = 3  MaxLevel = 4  ReAdd = TRUE
 CONSTANTS Layout <- LayoutT  Place <- PlaceT  SFlagSets <- FlagsGPS  TrackSet <- Both  Go <- GoBounded
 INIT Init
 NEXT Next
